@@ -18,6 +18,14 @@ theorem gen_execute_stmts_eq_ref : Gen.executeStmts = Ref.executeStmts := rfl
 theorem gen_execute_defer_eq_ref : Gen.executeDefer = Ref.executeDefer := rfl
 theorem gen_flow_assignments_eq_ref : Gen.flowAssignments = Ref.flowAssignments := rfl
 theorem gen_delegations_eq_ref : Gen.delegations = Ref.delegations := rfl
+/-- the statement kinds that run a nested statement list (IF, CASE, WHILE, WHILE IN, SOURCE, EXECUTE of a string,
+    EXECUTE of a prepared statement) are the reviewed seven … -/
+theorem gen_nested_flow_calls_eq_ref : Gen.nestedFlowCalls = Ref.nestedFlowCalls := rfl
+/-- … and every one of them assigns the nested list's StatementFlow to `flow`, the variable ExecuteStatement returns:
+    an EXIT / RETURN / error flow met at any depth reaches the loop of `execute_loop_first_stop` (a call whose flow is
+    dropped — `_, err = proc.execute(…)` — would let the caller carry on and auto-commit after an EXIT in a sourced file) -/
+theorem gen_nested_flow_reaches_caller :
+    ∀ c ∈ Gen.nestedFlowCalls, c.2.2 = "flow" := by decide
 /-- action.Run switches auto-commit on, executes once, returns that error — nothing in between -/
 theorem gen_run_tail_eq_ref : Gen.runTail = Ref.runTail := rfl
 
